@@ -139,6 +139,34 @@ MODULE_ALIASES = {
 UFUNCS_WITH_OUT = {"numpy.add", "numpy.subtract"}
 
 
+def _literal(node, env):
+    """value of a module-level literal table: constants, dotted names (as ModRef), nested dicts / tuples; None if anything else"""
+    if isinstance(node, ast.Constant):
+        return node.value
+    if isinstance(node, ast.UnaryOp) and isinstance(node.op, ast.USub) and isinstance(node.operand, ast.Constant):
+        return -node.operand.value
+    if isinstance(node, ast.Name):
+        return env.get(node.id)
+    if isinstance(node, ast.Attribute):
+        base = _literal(node.value, env)
+        return ModRef(base.path + "." + node.attr) if isinstance(base, ModRef) else None
+    if isinstance(node, ast.Tuple):
+        vals = [_literal(e, env) for e in node.elts]
+        return None if any(v is None for v in vals) else tuple(vals)
+    if isinstance(node, ast.Dict):
+        out = {}
+        for k, v in zip(node.keys, node.values):
+            kk, vv = (_literal(k, env) if k is not None else None), _literal(v, env)
+            if kk is None or (vv is None and not (isinstance(v, ast.Constant) and v.value is None)):
+                return None
+            try:
+                out[kk] = vv
+            except TypeError:
+                return None
+        return out
+    return None
+
+
 def module_env_from_ast(tree):
     """Static name resolution through the module's import table and top-level definitions."""
     env = {}
@@ -161,6 +189,10 @@ def module_env_from_ast(tree):
                     env[n.targets[0].id] = n.value.value
                 elif isinstance(n.value, ast.UnaryOp) and isinstance(n.value.op, ast.USub) and isinstance(n.value.operand, ast.Constant):
                     env[n.targets[0].id] = -n.value.operand.value
+                elif isinstance(n.value, ast.Dict):
+                    lit = _literal(n.value, env)
+                    if lit is not None:
+                        env[n.targets[0].id] = lit  # a module-level constant table
                 elif isinstance(n.value, ast.Call) and isinstance(n.value.func, ast.Name) and n.value.func.id == "namedtuple":
                     env[n.targets[0].id] = RepoFunc(n.targets[0].id)  # a record constructor defined by the module
                 elif isinstance(n.value, ast.Call) and n.targets[0].id.isupper():
